@@ -16,7 +16,7 @@ Definition ex_t : tree := run ex_ops.
 Lemma ex_t_wf : wf ex_t.
 Proof. apply run_wf. repeat constructor; cbn; lia. Qed.
 Lemma ex_t_bounded : bounded ex_t.
-Proof. vm_compute. repeat split. Qed.
+Proof. unfold ex_t. cbv [run fold_left ex_ops apply_op]. vm_compute. repeat split. Qed.
 
 (* an absent key that is a prefix of a present one (and an extension of
    another): both versions, siblings on and off *)
@@ -39,8 +39,9 @@ Example ex_sound_hyps :
 Proof.
   exists (build_get_proof Hc 1 false [1; 2; 4] ex_t).
   eexists. split; [vm_compute; reflexivity|].
-  split; [|split; [exact ex_t_bounded|split; [exact ex_t_wf|split; [vm_compute; lia|reflexivity]]]].
-  vm_compute. repeat constructor.
+  split; [|split; [exact ex_t_bounded|split; [exact ex_t_wf|split; [vm_compute; lia|vm_compute; reflexivity]]]].
+  match goal with |- Forall _ ?l => let l' := eval vm_compute in l in change (Forall entry_wire l') end.
+  repeat constructor.
 Qed.
 
 (* a truncated, an extended and a reordered version of an honest proof are rejected *)
